@@ -71,14 +71,15 @@ class Lexer:
 
             # Multi-line comment
             if ch == "/" and self._peek() == "*":
+                line, column = self.line, self.column
                 self._advance()  # /
                 self._advance()  # *
-                while self.pos < self.length:
-                    if self._current() == "*" and self._peek() == "/":
-                        self._advance()  # *
-                        self._advance()  # /
-                        break
+                while not (self._current() == "*" and self._peek() == "/"):
+                    if self.pos >= self.length:
+                        raise JSSyntaxError("Unterminated comment", line, column)
                     self._advance()
+                self._advance()  # *
+                self._advance()  # /
                 continue
 
             break
